@@ -3,7 +3,7 @@
     number instance). The numeric half is in its Bellman-consistency form, see C02_partial below. *)
 From Coq Require Import String List Arith Bool QArith Qabs.
 From CR Require Import Model.Num Model.Outcome Model.Game Proofs.PipelineP Proofs.CondP Proofs.RewStepP
-     Proofs.ReachQ Proofs.RewQ Proofs.RewQ2 Proofs.RewResQ Proofs.RewQ3.
+     Proofs.ReachQ Proofs.RewQ Proofs.RewQ2 Proofs.RewResQ Proofs.RewQ3 Proofs.ErrBound Proofs.RewErrBound Proofs.RewQ4.
 Import ListNotations.
 
 (* For every well-formed game and both modes, when solve returns: the transition lists on which the
@@ -35,9 +35,34 @@ Proof. intros T K. exact (rew_step_empty K). Qed.
 Theorem C02_bellman_consistent : forall fuel (g : game (T:=Q)) prune r,
   wf_game qops g -> num_wf1 g -> solve_fuel qops fuel g prune = Ok r ->
   forall s, s < nstates g ->
+    (* the conditioned rows of probabilistic states carry positive probabilities summing to at most 1 ... *)
+    (nth s (g_players g) PR = PR -> pos_w (nth s (r_pruned r) []) /\ (sumw (nth s (r_pruned r) []) <= 1)%Q) /\
+    (* ... and the reward equation holds up to the threshold *)
     (Qabs (psi (fun i => nth i (r_rewards r) 0) (nth s (g_players g) PR) (nth s (g_rewards g) 0) (nth s (r_pruned r) [])
            - nth s (r_rewards r) 0) <= q_thr)%Q.
 Proof. exact solve_bellman_consistent. Qed.
+
+(* CONDITIONAL full-strength form of "equals, within convergence tolerance, the value of the conditioned
+   game": let y solve the conditioned game's reward equations on the states in inS and agree with the
+   report elsewhere (absorbing zero-reward states), and let T certify a bounded expected absorption time of
+   the conditioned game (T s >= 1 + largest / probability-weighted successor value of T on inS, 1 <= T <= M).
+   Then every reported expected reward is within threshold * T s of y s. For a stopping game the max-min
+   value is such a y. (Without such a T the claim is false: K1-C02.) *)
+Theorem C02_error_bound : forall fuel (g : game (T:=Q)) prune r,
+  wf_game qops g -> num_wf1 g -> solve_fuel qops fuel g prune = Ok r ->
+  let kd := fun s => nth s (g_players g) PR in
+  let rw := fun s => nth s (g_rewards g) 0%Q in
+  let tr := fun s => nth s (r_pruned r) [] in
+  let x := fun s => nth s (r_rewards r) 0%Q in
+  forall (inS : nat -> bool) (y T : nat -> Q) (C M : Q),
+    (0 <= C)%Q ->
+    (forall s, inS s = true -> s < nstates g) ->
+    (forall s, inS s = true -> y s = Psi kd rw tr y s) ->
+    (forall s, inS s = false -> y s = x s) ->
+    (forall s, (Qabs (y s - x s) <= C)%Q) ->
+    (forall s, (1 + B kd tr inS T s <= T s)%Q) -> (forall s, (0 <= T s <= M)%Q) ->
+    forall s, (Qabs (y s - x s) <= q_thr * T s)%Q.
+Proof. exact solve_reward_error_bound. Qed.
 
 (* C02_partial: equality "within tolerance" with the TRUE max-min value of the conditioned game is not a
    theorem: it is false in general (known finding K1-C02: reward 5e-7 on a self-loop left with
@@ -47,3 +72,4 @@ Proof. exact solve_bellman_consistent. Qed.
 Print Assumptions C02_runs_on_conditioned_game.
 Print Assumptions C02_empty_state_worth_zero.
 Print Assumptions C02_bellman_consistent.
+Print Assumptions C02_error_bound.
